@@ -62,8 +62,11 @@ def gen_cases_for(seed_, n):
                 have.add(k)
             elif r < 0.55:
                 ops.append({"op": "rerender", "input": rng.choice(sorted(have)), "fw": fw, "flat": flat})
-            elif r < 0.68:
+            elif r < 0.62:
                 ops.append({"op": "direct", "input": rng.choice(sorted(have)), "fw": fw})
+            elif r < 0.68 and len(inputs) >= 2:
+                a, b = rng.sample(range(len(inputs)), 2)
+                ops.append({"op": "direct_interleaved", "input": a, "other": b, "fw": fw})
             elif r < 0.86:
                 ops.append({"op": "failing", "input": rng.choice(sorted(have)), "fw": fw, "flat": flat,
                             "how": rng.choice(["failpoint", "failpoint", "field_data"]), "at": rng.randint(1, 60)})
@@ -155,6 +158,23 @@ def exec_op(state, inputs, op):
             out = []
             # like generate_code does: construct every generator first (construction converts the model's name), then generate
             gens = [driver.FW[op["fw"]](m, **driver.generator_kwargs(o)) for m in run.registry.models]
+            for g in gens:
+                imports, text = g.generate()
+                out.append([sorted(map(repr, imports)), text])
+            return {"text": json.dumps(out)}
+        if kind == "direct_interleaved":
+            # two sets of generator objects alive at the same time (other input, other literal limit / unicode option):
+            # construct A's generators, construct B's generators, then generate A
+            inp, oth = inputs[op["input"]], inputs[op["other"]]
+            o, o2 = _opts(inp, op["fw"], True), _opts(oth, op["fw"], True)
+            run = state.get(op["input"]) or driver.infer([(inp["name"], inp["samples"])], o)
+            state[op["input"]] = run
+            gens = [driver.FW[op["fw"]](m, **driver.generator_kwargs(o)) for m in run.registry.models]
+            if not op.get("alone"):
+                run2 = state.get(op["other"]) or driver.infer([(oth["name"], oth["samples"])], o2)
+                state[op["other"]] = run2
+                gens2 = [driver.FW[op["fw"]](m, **driver.generator_kwargs(o2)) for m in run2.registry.models]
+            out = []
             for g in gens:
                 imports, text = g.generate()
                 out.append([sorted(map(repr, imports)), text])
@@ -349,6 +369,9 @@ def run_case(case):
         ref_op = dict(op)
         if op["op"] == "rerender":
             ref_op["op"] = "gen"  # rendering once from a fresh registry
+        if op["op"] == "direct_interleaved":
+            ref_op["alone"] = True  # the same generators without the other set alive
+            cnt["direct_calls"] += 1
         key = digest([inputs[op["input"]] if "input" in op else None, ref_op])
         ref = REF_CACHE.get(key)
         if ref is None:
